@@ -547,6 +547,22 @@ def set_float_cs_eip(info):
     e.append(ExprAff(float_cs, cs))
     return e
 
+def zeroext32(x):
+    if x.get_size() != 16:
+        return x
+    if isinstance(x, ExprInt):
+        return ExprInt32(int(x.arg))
+    return ExprCompose([(x, 0, 16), (ExprInt16(0), 16, 32)])
+
+def set_eip(dst):
+    # a branch decoded under the 16-bit operand size has a 16-bit
+    # destination: eip gets it zero-extended
+    if isinstance(dst, ExprCond):
+        dst = ExprCond(dst.cond, zeroext32(dst.src1), zeroext32(dst.src2))
+    else:
+        dst = zeroext32(dst)
+    return ExprAff(eip, dst)
+
 def mov(info, a, b):
     return [ExprAff(a, b)]
 
@@ -1249,7 +1265,7 @@ def call(info, a, b):
     c = ExprOp('+', myesp, ExprInt(int_cast(-s/8)))
     e.append(ExprAff(myesp, c))
     e.append(ExprAff(ExprMem(c, size=s), a))
-    e.append(ExprAff(eip, b))
+    e.append(set_eip(b))
     return e
 
 def ret(info, a = ExprInt32(0)):
@@ -1265,7 +1281,7 @@ def ret(info, a = ExprInt32(0)):
     # the byte count (imm16, or the default 0) in the width of the stack pointer
     a = ExprInt(int_cast(int(a.arg)))
     e.append(ExprAff(myesp, ExprOp('+', myesp, ExprOp('+', ExprInt(int_cast(s//8)), a))))
-    e.append(ExprAff(eip, ExprMem(myesp, size = s)))
+    e.append(set_eip(ExprMem(myesp, size = s)))
     return e
 
 def retf(info, a = ExprInt32(0)):
@@ -1280,7 +1296,7 @@ def retf(info, a = ExprInt32(0)):
     int_cast = tab_uintsize[s]
     a = ExprInt(int_cast(int(a.arg)))
     e.append(ExprAff(myesp, ExprOp('+', myesp, ExprOp('+', ExprInt(int_cast(s//8 + 2)), a))))
-    e.append(ExprAff(eip, ExprMem(myesp, size = s)))
+    e.append(set_eip(ExprMem(myesp, size = s)))
     e.append(ExprAff(cs, ExprMem(ExprOp('+', myesp, ExprInt(int_cast(s/8))),
                                  size=16)))
 
@@ -1331,99 +1347,107 @@ def enter(info, a,b):
 
 def jmp(info, a):
     e= []
-    e.append(ExprAff(eip, a))
+    e.append(set_eip(a))
     return e
 
-def jmpf(info, a, seg):
+def jmpf(info, a, seg = None):
     e= []
-    e.append(ExprAff(eip, a))
+    if seg is None:
+        # indirect form (FF /5): the operand is the far pointer in memory,
+        # the offset (operand size) first, then the selector
+        if not isinstance(a, ExprMem):
+            raise ValueError('not exprmem instance!!')
+        seg = ExprMem(ExprOp('+', a.arg,
+                             ExprInt_from(a.arg, a.get_size()//8)),
+                      size=16)
+    e.append(set_eip(a))
     e.append(ExprAff(cs, seg))
     return e
 
 
 def je(info, a, b):
     e= []
-    e.append(ExprAff(eip, ExprCond(zf, b, a)))
+    e.append(set_eip(ExprCond(zf, b, a)))
     return e
 
 def jne(info, a, b):
     e= []
-    e.append(ExprAff(eip, ExprCond(zf, a, b)))
+    e.append(set_eip(ExprCond(zf, a, b)))
     return e
 
 def jp(info, a, b):
     e= []
-    e.append(ExprAff(eip, ExprCond(pf, b, a)))
+    e.append(set_eip(ExprCond(pf, b, a)))
     return e
 
 def jnp(info, a, b):
     e= []
-    e.append(ExprAff(eip, ExprCond(pf, a, b)))
+    e.append(set_eip(ExprCond(pf, a, b)))
     return e
 
 def ja(info, a, b):
     e= []
-    e.append(ExprAff(eip, ExprCond(ExprOp('|', cf, zf), a, b)))
+    e.append(set_eip(ExprCond(ExprOp('|', cf, zf), a, b)))
     return e
 
 def jae(info, a, b):
     e= []
-    e.append(ExprAff(eip, ExprCond(cf, a, b)))
+    e.append(set_eip(ExprCond(cf, a, b)))
     return e
 
 def jb(info, a, b):
     e= []
-    e.append(ExprAff(eip, ExprCond(cf, b, a)))
+    e.append(set_eip(ExprCond(cf, b, a)))
     return e
 
 def jbe(info, a, b):
     e= []
-    e.append(ExprAff(eip, ExprCond(ExprOp('|', cf, zf), b, a)))
+    e.append(set_eip(ExprCond(ExprOp('|', cf, zf), b, a)))
     return e
 
 def jge(info, a, b):
     e= []
-    e.append(ExprAff(eip, ExprCond(nf-of, a, b)))
+    e.append(set_eip(ExprCond(nf-of, a, b)))
     return e
 
 def jg(info, a, b):
     e= []
-    e.append(ExprAff(eip, ExprCond(ExprOp('|', zf, nf-of), a, b)))
+    e.append(set_eip(ExprCond(ExprOp('|', zf, nf-of), a, b)))
     return e
 
 def jl(info, a, b):
     e= []
-    e.append(ExprAff(eip, ExprCond(nf-of, b, a)))
+    e.append(set_eip(ExprCond(nf-of, b, a)))
     return e
 
 def jle(info, a, b):
     e= []
-    e.append(ExprAff(eip, ExprCond(ExprOp('|', zf, nf-of), b, a)))
+    e.append(set_eip(ExprCond(ExprOp('|', zf, nf-of), b, a)))
     return e
 
 def js(info, a, b):
     e= []
-    e.append(ExprAff(eip, ExprCond(nf, b, a)))
+    e.append(set_eip(ExprCond(nf, b, a)))
     return e
 
 def jns(info, a, b):
     e= []
-    e.append(ExprAff(eip, ExprCond(nf, a, b)))
+    e.append(set_eip(ExprCond(nf, a, b)))
     return e
 
 def jo(info, a, b):
     e= []
-    e.append(ExprAff(eip, ExprCond(of, b, a)))
+    e.append(set_eip(ExprCond(of, b, a)))
     return e
 
 def jno(info, a, b):
     e= []
-    e.append(ExprAff(eip, ExprCond(of, a, b)))
+    e.append(set_eip(ExprCond(of, a, b)))
     return e
 
 def jecxz(info, a, b):
     e= []
-    e.append(ExprAff(eip, ExprCond(ecx, a, b)))
+    e.append(set_eip(ExprCond(ecx, a, b)))
     return e
 
 
@@ -1431,7 +1455,7 @@ def loop(info, a, b):
     e= []
     c = ExprOp('-', ecx, ExprInt32(1))
     e.append(ExprAff(ecx, c))
-    e.append(ExprAff(eip, ExprCond(c, b, a)))
+    e.append(set_eip(ExprCond(c, b, a)))
     return e
 
 def loopne(info, a, b):
@@ -1443,7 +1467,7 @@ def loopne(info, a, b):
                   ExprCond(c, ExprInt_from(c, 0), ExprInt_from(c, 1)),
                   ExprCond(zf, ExprInt_from(c, 1), ExprInt_from(c, 0))
                   )
-    e.append(ExprAff(eip, ExprCond(cond, a, b)))
+    e.append(set_eip(ExprCond(cond, a, b)))
     return e
 
 
@@ -1456,7 +1480,7 @@ def loope(info, a, b):
                   ExprCond(c, ExprInt_from(c, 0), ExprInt_from(c, 1)),
                   ExprCond(zf, ExprInt_from(c, 0), ExprInt_from(c, 1))
                   )
-    e.append(ExprAff(eip, ExprCond(cond, a, b)))
+    e.append(set_eip(ExprCond(cond, a, b)))
     return e
 
 
